@@ -1,0 +1,45 @@
+//go:build verif
+
+package cache
+
+// Contracts for govc, the contract verifier under /verif (see /verif/DESIGN.md).
+// This file contains comments only; it adds no code under any build tag.
+
+// ---- directory handles (dir.go) ----
+// The listing of the source directory is a deterministic function of (source, name); pages are windows of it.
+
+//@ spec srcList(d *dir) := ret("hackpadfs.ReadDir", 0, d.fs.sourceFS, d.name)
+//@ spec srcListErr(d *dir) := ret("hackpadfs.ReadDir", 1, d.fs.sourceFS, d.name)
+//@ spec dirOK(d *dir) := d != nil && d.fs != nil && d.fs.sourceFS != nil && d.offset >= 0
+//@ spec closedErr(err error, d *dir) := isPathError(err) && errIs(err, hackpadfs.ErrClosed) && pathOf(err) == d.name
+//@ spec pStart(d *dir, off int) := min(off, len(srcList(d)))
+//@ spec pEnd(d *dir, off int, n int) := ite(n > 0 && n < len(srcList(d)) - pStart(d, off), pStart(d, off) + n, len(srcList(d)))
+
+//@ func (d *dir) Read(p []byte) (n int, err error)
+//@   props C02 C17 C05
+//@   requires dirOK(d)
+//@   ensures "never-bytes" n == 0 && isPathError(err) && pathOf(err) == d.name
+//@   ensures "closed" [C17] implies(d.closed, closedErr(err, d))
+//@   ensures "isdir" [C02 C05] implies(!d.closed, errIs(err, hackpadfs.ErrIsDir))
+//@   nopanic
+
+//@ func (d *dir) Close() (err error)
+//@   props C17
+//@   requires dirOK(d)
+//@   modifies d.closed
+//@   ensures "first" implies(!old(d.closed), err == nil && d.closed)
+//@   ensures "again" [C17] implies(old(d.closed), closedErr(err, d) && d.closed)
+//@   nopanic
+
+//@ func (d *dir) ReadDir(n int) (entries []hackpadfs.DirEntry, err error)
+//@   props C16 C17 C10
+//@   requires dirOK(d)
+//@   modifies d.offset, world()
+//@   ensures "closed" [C17] implies(d.closed, entries == nil && closedErr(err, d) && d.offset == old(d.offset) && world() == old(world()))
+//@   ensures "source-error" implies(!d.closed && old(srcListErr(d)) != nil, entries == nil && err == old(srcListErr(d)) && d.offset == old(d.offset))
+//@   ensures "eof" [C16] implies(!d.closed && old(srcListErr(d)) == nil && n > 0 && old(d.offset) >= len(old(srcList(d))), len(entries) == 0 && err == io.EOF && d.offset == old(d.offset))
+//@   ensures "page" [C16 C10] implies(!d.closed && err == nil, len(entries) == old(pEnd(d, d.offset, n)) - old(pStart(d, d.offset)) && d.offset == old(pEnd(d, d.offset, n)) &&
+//@                     forall(i, 0, len(entries), entries[i] == old(srcList(d))[old(pStart(d, d.offset)) + i]))
+//@   ensures "nonempty-or-eof" [C16] implies(!d.closed && n > 0 && err == nil, len(entries) > 0)
+//@   ensures "all" [C16] implies(!d.closed && n <= 0 && old(srcListErr(d)) == nil, err == nil && len(entries) == len(old(srcList(d))) - old(pStart(d, d.offset)))
+//@   nopanic
